@@ -62,6 +62,7 @@ pub fn run(args: &[String]) {
                 "commit" => com.inner_layers[c1 - 1].vector_commitment.commitment_hash += Felt::ONE,
                 "evalpt" => com.eval_points[c1 - 1] += Felt::ONE,
                 "lastcoef" => com.last_layer_coefficients[c1 - 1] += Felt::ONE,
+                "lastzero" => for c in com.last_layer_coefficients.iter_mut() { *c = Felt::ZERO; },
                 "lastlen" => { if c1 == 1 { com.last_layer_coefficients.push(Felt::ZERO); } else { com.last_layer_coefficients.pop(); } }
                 _ => {}
             }
